@@ -150,7 +150,8 @@ pub fn run(ctx: &Ctx) -> Result<(), String> {
             let mut obs = c09::run_events(&mut srv, &h, 2, false);
             let _ = c09::judge(&mut obs, &lt_pk, false);
             evals.fetch_add(1, Relaxed);
-            for (_, v, info) in &obs.infos {
+            for (ix, (_, v, info)) in obs.infos.iter().enumerate() {
+                let (t_sent, t_recv) = obs.info_times[ix];
                 live.fetch_add(1, Relaxed);
                 nontrivial.fetch_add(1, Relaxed);
                 let unit_us: u64 = match v {
@@ -165,16 +166,17 @@ pub fn run(ctx: &Ctx) -> Result<(), String> {
                 if info.radi != want_radi {
                     ctx.violation("radius-not-5s", "reply", v.name(), detail("RADI".into()));
                 }
-                // signing happened in [t_before, t_after]; MIDP is the clock reading at signing in the
-                // protocol's unit (floor), so midp*unit <= t_after and (midp+1)*unit > t_before
+                // the batch was signed after this request was sent and before its reply was received;
+                // MIDP is the clock reading at signing in the protocol's unit (floor), so
+                // (midp+1)*unit > t_sent and midp*unit <= t_recv
                 let lo = info.midp.saturating_mul(unit_us);
                 let hi = (info.midp + 1).saturating_mul(unit_us);
-                if !(lo <= obs.t_after_us && hi > obs.t_before_us) {
-                    ctx.violation("midp-not-clock", "reply", v.name(), detail("midpoint outside the harness clock bracket".into()));
+                if !(lo <= t_recv && hi > t_sent) {
+                    ctx.violation("midp-not-clock", "reply", v.name(), detail(format!("midpoint outside the bracket [request sent {}, reply received {}] (us)", t_sent, t_recv)));
                 }
                 // and the true time of signing lies within midpoint +/- radius
                 let r_us = (info.radi as u64).saturating_mul(unit_us);
-                if !(lo.saturating_sub(r_us) <= obs.t_after_us && hi.saturating_add(r_us) >= obs.t_before_us) {
+                if !(lo.saturating_sub(r_us) <= t_recv && hi.saturating_add(r_us) >= t_sent) {
                     ctx.violation("true-time-outside-radius", "reply", v.name(), detail("true time not within midpoint +/- radius".into()));
                 }
             }
@@ -187,7 +189,7 @@ pub fn run(ctx: &Ctx) -> Result<(), String> {
     ctx.cov("distinct_nontrivial", json!(nontrivial.load(Relaxed)));
     ctx.cov("live_replies_bracketed", json!(live.load(Relaxed)));
     ctx.cov("exhaustive", json!(true));
-    ctx.cov("rule", json!("grid: make_srep(version, clock, root) for clock seconds {0,1,59,60,1e9,2^31-1,2^31,2^32-1,2^32,year 2200,year 9999,2^40} x nanos {0,1,999,1000,1001,499999999,999999,1000000,999999000,999999999} (thorough: + every second of 2024-02-29 x {0,999999999}) x both versions, second SREP on a key that already signed one: MIDP == floor(clock / unit) (microseconds classic, seconds IETF), RADI == 5 s in that unit, ROOT echoed, IETF VER/VERS present, SIG verifies under the online key with the response context. Live: every authentic reply of all C09 event histories of the tier's depth (batch_size 1 and 3) is bracketed by harness clock readings before the first send and after the last receive."));
+    ctx.cov("rule", json!("grid: make_srep(version, clock, root) for clock seconds {0,1,59,60,1e9,2^31-1,2^31,2^32-1,2^32,year 2200,year 9999,2^40} x nanos {0,1,999,1000,1001,499999999,999999,1000000,999999000,999999999} (thorough: + every second of 2024-02-29 x {0,999999999}) x both versions, second SREP on a key that already signed one: MIDP == floor(clock / unit) (microseconds classic, seconds IETF), RADI == 5 s in that unit, ROOT echoed, IETF VER/VERS present, SIG verifies under the online key with the response context. Live: every authentic reply of all C09 event histories of the tier's depth (batch_size 1 and 3) is bracketed per reply by harness clock readings taken just before its request was sent and when the reply was drained (after the step that produced it)."));
     ctx.sample(json!({"kind":"grid","version":"classic","secs":2147483648u64,"nanos":999999999}));
     ctx.sample(json!({"kind":"live","version":"ietf13","events":["I0","C1","step","I1"]}));
     ctx.assume("the harness and the in-process server read the same system clock; the clock does not step backwards during a history");
